@@ -63,7 +63,7 @@ PROPS = {
         assumptions=[],
     ),
     "C01": dict(
-        modules=["Gopki.Props.C01"], theorems=[], ops=["pki"],
+        modules=["Gopki.Props.C01"], theorems=[], ops=["pki", "hist"],
         rule="pki: forests of 1-5 entities (random parent vector, nested directories, yaml/yml/json), every key algorithm except RSA>=2048 in quick, configured/omitted signature algorithms, "
              "subjects from the documented grammar incl. UTF-8 and custom OIDs, 0-6 extensions of all 11 kinds, serials, unique ids, validity forms, manipulations in 1 of 5 forests, 6 zone offsets, 5 flag sets; "
              "non-trivial = at least one certificate generated; every generated certificate is compared byte for byte with the model and read by the strict decoder",
@@ -72,7 +72,7 @@ PROPS = {
         assumptions=["Crypto laws: a signature made with a private key verifies under its public key; ECDSA/RSA key type is what the key's Go type says"],
     ),
     "C02": dict(
-        modules=["Gopki.Props.C02"], theorems=[], ops=['pki'],
+        modules=["Gopki.Props.C02"], theorems=[], ops=['pki', 'hist'],
         rule="pki: forests of 1-5 entities (random parent vector, nested directories, yaml/yml/json), every key algorithm except RSA>=2048 in quick, configured/omitted signature algorithms, "
              "subjects from the documented grammar incl. UTF-8 and custom OIDs, 0-6 extensions of all 11 kinds, serials, unique ids, validity forms, manipulations in 1 of 5 forests, 6 zone offsets, 5 flag sets; "
              "every generated certificate is compared byte for byte with the model and read by the strict decoder; non-trivial = at least one certificate generated",
@@ -144,6 +144,16 @@ PROPS = {
              "subjects from the documented grammar incl. UTF-8 and custom OIDs, 0-6 extensions of all 11 kinds, serials, unique ids, validity forms, manipulations in 1 of 5 forests, 6 zone offsets, 5 flag sets; "
              "every generated certificate is compared byte for byte with the model and read by the strict decoder; non-trivial = at least one certificate generated",
         modelled=['modelled, not verified: encoding/asn1 marshalling (Gopki.Base.Asn1 / Gopki.Model.Generator), encoding/pem, encoding/json (Gopki.Model.Hash), io/fs walk order, MapFS, YAML/JSON-schema front end (identity)', 'signature mathematics and key generation: oracle inputs; verification done by the harness with crypto/ecdsa, crypto/rsa and the keybase brainpool curves'],
+        assumptions=[],
+    ),
+    "C18": dict(
+        modules=["Gopki.Props.C18"], theorems=["Forest.bfs_main", "Forest.consistent_iff"], ops=["open"],
+        rule="open: every issuer function on 1-3 (thorough 1-4) entities with issuer in {none, each entity incl. itself, an undefined alias}, spread over nested directories and suffix/case variants, "
+             "with junk files (other suffixes, unparseable text, no version key, schema-invalid, wrong version, empty); 13 hand-written alias-collision and layout cases; 150 (thorough 3000) random directories "
+             "with aliases from a 4-name pool; each directory is opened, planned and signed; non-trivial = at least one certificate generated or the hierarchy refused",
+        exhaustive={"quick": True, "thorough": True},
+        exhaustive_note="the issuer functions on <= 3 (4) entities are enumerated completely; the theorem covers forests of any size",
+        modelled=["modelled, not verified: fs.WalkDir order (lexicographic on path components), strings.ToLower/HasSuffix, config.ParseConfig outcome classes (observed: the harness marks which files are configurations)"],
         assumptions=[],
     ),
 }
